@@ -52,6 +52,17 @@ type Contract struct {
 	Used     bool
 	HdrRecv  string
 	HdrName  string
+	Opaque   bool
+	Ghost    bool     // ghost func: a sequence of contract applications (lemma over contracts)
+	Calls    []*GhostCall
+}
+
+// GhostCall is one step of a ghost function: `call [x :=] f(args)`.
+type GhostCall struct {
+	Vars []string
+	Call *ECall
+	Text string
+	Line int
 }
 
 // Lemma is a closed formula proved from spec-function definitions only.
@@ -73,7 +84,7 @@ type ContractSet struct {
 	Files  []string
 }
 
-var clauseKw = map[string]bool{"func": true, "pure": true, "assume": true, "lemma": true, "arith": true, "requires": true,
+var clauseKw = map[string]bool{"func": true, "pure": true, "opaque": true, "ghost": true, "call": true, "assume": true, "lemma": true, "arith": true, "requires": true,
 	"ensures": true, "loop": true, "closure": true, "modifies": true, "claims": true, "cover": true, "inline": true,
 	"replay": true, "props": true, "split": true, "hint": true, "end": true}
 
@@ -152,7 +163,7 @@ func (cs *ContractSet) loadFile(path, pkg string) error {
 			return fmt.Errorf("%s:%d: %s", path, l.line, fmt.Sprintf(f, a...))
 		}
 		switch kw {
-		case "func", "pure", "assume":
+		case "func", "pure", "assume", "opaque", "ghost":
 			c := &Contract{PkgPath: pkg, Loops: map[int][]*Clause{}, Closures: map[int]*Contract{}, Claims: map[string]bool{},
 				Inline: map[string]bool{}, File: path, Line: l.line, Header: l.text}
 			hdr := l.text
@@ -163,6 +174,10 @@ func (cs *ContractSet) loadFile(path, pkg string) error {
 				}
 				if f[0] == "pure" {
 					c.Pure = true
+				} else if f[0] == "opaque" {
+					c.Opaque = true
+				} else if f[0] == "ghost" {
+					c.Ghost = true
 				} else if f[0] == "assume" {
 					c.Assumed = true
 				} else if f[0] == "func" {
@@ -382,6 +397,25 @@ func addClause(c *Contract, text string, line int) error {
 			return err
 		}
 		c.Splits = append(c.Splits, cl)
+	case "call":
+		gc := &GhostCall{Line: line, Text: rest}
+		body := rest
+		if i := strings.Index(rest, ":="); i > 0 {
+			for _, v := range strings.Split(rest[:i], ",") {
+				gc.Vars = append(gc.Vars, strings.TrimSpace(v))
+			}
+			body = strings.TrimSpace(rest[i+2:])
+		}
+		e, err := ParseExpr(body)
+		if err != nil {
+			return err
+		}
+		ce, ok := e.(*ECall)
+		if !ok {
+			return fmt.Errorf("call clause needs a call expression")
+		}
+		gc.Call = ce
+		c.Calls = append(c.Calls, gc)
 	default:
 		return fmt.Errorf("unknown clause %q", kw)
 	}
@@ -521,6 +555,11 @@ func (cs *ContractSet) Resolve(resolvePkg func(from, qual string) (string, error
 	pending := cs.ByKey
 	cs.ByKey = map[string]*Contract{}
 	for _, c := range pending {
+		if c.Ghost {
+			c.Key = c.PkgPath + ".ghost." + c.HdrName
+			cs.ByKey[c.Key] = c
+			continue
+		}
 		full := func(t string) (string, error) {
 			q, n := splitQual(t)
 			if q == "" {
